@@ -387,18 +387,13 @@ func NewRateLimiter(config RateLimiterConfig) *RateLimiter {
 	}
 }
 
-// AllowRequest checks if a request should be allowed
+// AllowRequest checks if a request should be allowed.
+//
+// The limits are checked from the most specific to the most shared one
+// (per-connection, per-IP, global), so that a request refused by the client's
+// own limits never consumes capacity that other clients share: the global
+// bucket is only charged for requests that are actually admitted.
 func (rl *RateLimiter) AllowRequest(ip string, connID string) bool {
-	// Check global limit first
-	if !rl.globalLimiter.Allow() {
-		return false
-	}
-
-	// Check per-IP limit
-	if !rl.perIPLimiter.Allow(ip) {
-		return false
-	}
-
 	// Check per-connection limit if enabled
 	if rl.config.PerConnectionRequestsPerSecond > 0 {
 		if limiterInterface, loaded := rl.perConnectionLimiter.Load(connID); loaded {
@@ -416,7 +411,13 @@ func (rl *RateLimiter) AllowRequest(ip string, connID string) bool {
 		}
 	}
 
-	return true
+	// Check per-IP limit
+	if !rl.perIPLimiter.Allow(ip) {
+		return false
+	}
+
+	// Charge the global limit last
+	return rl.globalLimiter.Allow()
 }
 
 // AllowOperation checks if a specific operation type should be allowed
